@@ -17,6 +17,20 @@ class Undecided(Exception):
     """A rule met a form it does not recognise -> exit 2, never a violation."""
 
 
+def _copy_tree(e):
+    """structural copy of a small syntax tree (copy.deepcopy is two orders of magnitude slower on ast nodes)"""
+    if isinstance(e, list):
+        return [_copy_tree(x) for x in e]
+    if not isinstance(e, ast.AST):
+        return e
+    new = e.__class__()
+    for k, v in e.__dict__.items():
+        if k == '_parent':
+            continue
+        setattr(new, k, _copy_tree(v) if isinstance(v, (ast.AST, list)) else v)
+    return new
+
+
 class _LowerIfExp(ast.NodeTransformer):
     """`x = a if c else b` / `return a if c else b`  ->  the equivalent if statement (the rules then see one form only)"""
 
@@ -31,9 +45,8 @@ class _LowerIfExp(ast.NodeTransformer):
         return new
 
     def visit_Assign(self, node):
-        import copy
         if isinstance(node.value, ast.IfExp) and all(isinstance(t, (ast.Name, ast.Attribute, ast.Tuple)) for t in node.targets):
-            return self._lower(node, lambda v: ast.Assign(targets=copy.deepcopy(node.targets), value=v, type_comment=None))
+            return self._lower(node, lambda v: ast.Assign(targets=[_copy_tree(t) for t in node.targets], value=v, type_comment=None))
         return node
 
     def visit_Return(self, node):
